@@ -722,6 +722,18 @@ theorem reused_object_partial {S H : Type} (r1 r2 : RunOut S H) (h1 : H) (st2 : 
   · simp [o, SnowObj.run, SnowObj.results, SnowObj.fresh, hr1, hr2, hs2]
   · simp [o, SnowObj.run, SnowObj.history, SnowObj.fresh, hr1, hr2, hh1, hh2]
 
+/-- with the proposed repair of `run()` (fixes/K6.diff: the outputs of an earlier run are cleared
+first) a raising run never leaves readable data, whatever the history of the object -/
+theorem reused_object_fixed {S H : Type} (o : SnowObj S H) (r : RunOut S H) (e : String)
+    (hr : r.exc = some e) (hh : r.hist = none) :
+    (o.runFixed r).results = .error "AssertionError" ∧ (o.runFixed r).history = .error "AssertionError" := by
+  simp [SnowObj.runFixed, SnowObj.results, SnowObj.history, hr, hh]
+
+/-- … and a completed run shows exactly its own results -/
+theorem reused_object_fixed_ok {S H : Type} (o : SnowObj S H) (r : RunOut S H) (hr : r.exc = none) :
+    (o.runFixed r).results = .ok r.stats ∧ (o.runFixed r).history = .ok r.hist := by
+  simp [SnowObj.runFixed, SnowObj.results, SnowObj.history, hr]
+
 /-! ### concrete runs (non-vacuity and the K6 witness) -/
 
 /-- run 1: unit constants, no solute, controlled nucleation at −8 °C, shelf at 0 K: freezes in one step -/
